@@ -692,6 +692,7 @@ Inductive mutation :=
 | MPayProof (p : option (payinfo cpk cesig))
 (* payment-proof field of the reply (C11) *)
 | MPPStrip | MPPNoSig
+| MPPStripRelabel                               (* proof dropped and Standard2 <-> Invoice2 *)
 | MPPResign (k : Z) (newaddr : bool)            (* signed by key k over the right message *)
 | MPPOver (da : Z) (oexcess osender : bool)     (* right key, other amount / excess / sender *)
 | MPPSaddr (a : Z) | MPPRaddr (a : Z)
@@ -806,6 +807,12 @@ Definition apply_mut (m : mutation) (c : cctx) (o r : cslate) : cslate :=
   | MComsUnsorted => upd_coms r (fun l => l) true
   | MPayProof p => set_proof r p
   | MPPStrip => set_proof r None
+  | MPPStripRelabel =>
+    let r' := set_proof r None in
+    mkSlate (sl_num_parts r') (sl_id r')
+            (match sl_state r' with StS2 => StI2 | StI2 => StS2 | s => s end)
+            (sl_coms r') (sl_unsorted r') (sl_amount r') (sl_fee r')
+            (sl_feat r') (sl_feat_args r') (sl_ttl r') (sl_off r') (sl_sigs r') (sl_proof r')
   | MPPNoSig => set_proof r (match sl_proof r with
                              | Some p => Some (mkPay (pi_sender p) (pi_receiver p) None) | None => None end)
   | MPPResign k newaddr =>
